@@ -32,6 +32,7 @@ type decodeAnatomy struct {
 	invOKEdge  *edge
 	release    []ssa.Instruction // non-cancel counter writes in the body
 	sharedOps  []ssa.Instruction
+	liftedOps  []ssa.Instruction // calls to helpers that use the shared stream
 	decodeCall []*ssa.Call // NewEntropyDecoder, transform.New, Inverse, entropy Read
 }
 
@@ -113,6 +114,12 @@ func analyseDecode(p *Prog) *decodeAnatomy {
 			if c, ok := v.(*ssa.Call); ok && kc == 0 && c.Call.IsInvoke() && fieldVarOfLoad(c.Call.Value) == s.stream && c.Call.Method.Name() == "ReadBits" {
 				a.endEdge = append(a.endEdge, edge{b, succFor(pos, bo.Op == token.EQL)})
 			}
+			// the block length may be read by a helper that returns it
+			if c, ok := v.(*ssa.Call); ok && kc == 0 && !c.Call.IsInvoke() {
+				if h := c.Call.StaticCallee(); h != nil && h.Blocks != nil && FnPkg(h) == FnPkg(f) && returnsSharedReadBits(s, h) {
+					a.endEdge = append(a.endEdge, edge{b, succFor(pos, bo.Op == token.EQL)})
+				}
+			}
 		}
 	}
 	a.cancelEdge = s.cancelEdges(f)
@@ -143,6 +150,9 @@ func analyseDecode(p *Prog) *decodeAnatomy {
 	for _, u := range s.sharedUses(f) {
 		if c := callOf(u); c != nil && c.IsInvoke() && !s.lifted[u] {
 			a.sharedOps = append(a.sharedOps, u)
+		}
+		if s.lifted[u] {
+			a.liftedOps = append(a.liftedOps, u)
 		}
 	}
 	return a
@@ -225,6 +235,11 @@ func ruleSkipOrder(p *Prog, r *RuleResult) {
 			dataRead = append(dataRead, u)
 		}
 	}
+	for _, u := range a.liftedOps {
+		if helperUses(p, a.s, u, "ReadArray") {
+			dataRead = append(dataRead, u)
+		}
+	}
 	var k keyer
 	for _, st := range a.skipStores {
 		key := k.key(fname, "skip")
@@ -256,6 +271,11 @@ func ruleSkipOrder(p *Prog, r *RuleResult) {
 		lenRead := false
 		for _, u := range a.sharedOps {
 			if callOf(u).Method.Name() == "ReadBits" && instrDominates(u, st) {
+				lenRead = true
+			}
+		}
+		for _, u := range a.liftedOps {
+			if helperUses(p, a.s, u, "ReadBits") && instrDominates(u, st) {
 				lenRead = true
 			}
 		}
@@ -402,7 +422,7 @@ func ruleSkipOrder(p *Prog, r *RuleResult) {
 	if !refill {
 		r.fail(pname+"#refill-all-skipped", p.Pos(pb.Pos()), "Reader.processBlock does not repeat the batch when (and only when) every task was skipped: a range starting beyond the first batch reads as end of stream, or decoded batches are dropped")
 	}
-	r.floor(2, len(a.skipStores), "skip exits (from, to)")
+	r.floor(1, len(a.skipStores), "skip exits")
 }
 
 func mirrorOp(op token.Token) token.Token {
@@ -529,6 +549,21 @@ func ruleSkipRange(p *Prog, r *RuleResult) {
 	}
 	for _, key := range []string{"from", "to"} {
 		if !found[key] {
+			// the range test may have been extracted into a predicate helper: then the operators are checked there
+			// against the helper's boolean result (true = skip)
+			if rel, okh := skipPredicateRelation(p, a, key); okh {
+				want := token.LSS
+				if key == "to" {
+					want = token.GEQ
+				}
+				found[key] = true
+				if rel == want {
+					r.ok(fmt.Sprintf("%s: skip predicate helper returns true iff id %s %s", fname, rel, key), p.Pos(f.Pos()))
+				} else {
+					r.fail(fmt.Sprintf("%s#range.%s", fname, key), p.Pos(f.Pos()), fmt.Sprintf("the skip predicate returns true iff id %s %s; the half-open range [from,to) requires id %s %s", rel, key, want, key))
+				}
+				continue
+			}
 			r.fail(fmt.Sprintf("%s#range.%s", fname, key), p.Pos(f.Pos()), fmt.Sprintf("decode never compares the block id with ctx[%q]", key))
 		}
 	}
@@ -671,4 +706,117 @@ func ruleStale(p *Prog, r *RuleResult) {
 		}
 	}
 	r.floor(3, n, "buffer origins (initial loads, re-allocations, publication)")
+}
+
+// returnsSharedReadBits: every return of helper h yields a value read with ReadBits from the shared stream.
+func returnsSharedReadBits(s *taskSide, h *ssa.Function) bool {
+	if h.Signature.Results().Len() != 1 {
+		return false
+	}
+	ok := false
+	for _, b := range h.Blocks {
+		ret, isRet := b.Instrs[len(b.Instrs)-1].(*ssa.Return)
+		if !isRet || b == h.Recover {
+			continue
+		}
+		c, isCall := rvals(ret)[0].(*ssa.Call)
+		if !isCall || !c.Call.IsInvoke() || c.Call.Method.Name() != "ReadBits" || fieldVarOfLoad(c.Call.Value) != s.stream {
+			return false
+		}
+		ok = true
+	}
+	return ok
+}
+
+// helperUses: helper call i (a lifted shared-stream use) reaches an invoke of the named method on the shared stream.
+func helperUses(p *Prog, s *taskSide, i ssa.Instruction, method string) bool {
+	h := helperCallee(i, FnPkg(i.Parent()))
+	if h == nil {
+		return false
+	}
+	memo := map[*ssa.Function]int{}
+	return p.containsDeep(h, func(j ssa.Instruction) bool {
+		c := callOf(j)
+		return c != nil && c.IsInvoke() && c.Method.Name() == method && fieldVarOfLoad(c.Value) == s.stream
+	}, memo)
+}
+
+// skipPredicateRelation: decode tests a bool helper whose true edge marks the block skipped; inside the helper the
+// comparison of the block id with ctx[key] leads to `return true` on one edge. Returns the relation id <rel> bound that
+// holds when the helper returns true.
+func skipPredicateRelation(p *Prog, a *decodeAnatomy, key string) (token.Token, bool) {
+	f := a.f
+	skipBlocks := map[*ssa.BasicBlock]bool{}
+	for _, st := range a.skipStores {
+		skipBlocks[st.Block()] = true
+	}
+	for _, b := range f.Blocks {
+		ifi := blockIf(b)
+		if ifi == nil {
+			continue
+		}
+		atom, pos := condAtom(ifi.Cond)
+		c, ok := atom.(*ssa.Call)
+		if !ok {
+			continue
+		}
+		h := c.Call.StaticCallee()
+		if h == nil || h.Blocks == nil || FnPkg(h) != FnPkg(f) || !skipBlocks[b.Succs[succFor(pos, true)]] {
+			continue
+		}
+		trues, _, okb := boolReturns(h)
+		if !okb {
+			continue
+		}
+		isID := func(v ssa.Value) bool {
+			for {
+				if cv, ok := v.(*ssa.Convert); ok {
+					v = cv.X
+					continue
+				}
+				break
+			}
+			return a.s.isCurID(v)
+		}
+		for _, hb := range h.Blocks {
+			hi := blockIf(hb)
+			if hi == nil {
+				continue
+			}
+			hatom, hpos := condAtom(hi.Cond)
+			bo, ok := hatom.(*ssa.BinOp)
+			if !ok {
+				continue
+			}
+			op := bo.Op
+			var k string
+			var okk bool
+			if isID(bo.X) {
+				k, okk = ctxKeyOfValue(bo.Y, 0)
+			} else if isID(bo.Y) {
+				k, okk = ctxKeyOfValue(bo.X, 0)
+				op = mirrorOp(op)
+			}
+			if !okk || k != key {
+				continue
+			}
+			// which edge leads to `return true` (exclusively)?
+			tS, fS := hb.Succs[succFor(hpos, true)], hb.Succs[succFor(hpos, false)]
+			leadsTrue := func(start *ssa.BasicBlock) bool {
+				for _, t := range trues {
+					if t.Block() == start {
+						return true
+					}
+				}
+				return false
+			}
+			switch {
+			case leadsTrue(tS) && !leadsTrue(fS):
+				return op, true
+			case leadsTrue(fS) && !leadsTrue(tS):
+				return negateOp(op), true
+			}
+		}
+	}
+	return token.ILLEGAL, false
 }
